@@ -55,6 +55,9 @@ var c11Other = []c11Kind{
 	{".count()", "post", []string{".", "count", "(", ")"}, lvInvocation},
 	{".given", "post", []string{".", "given"}, lvInvocation},
 	{".Patient", "post", []string{".", "Patient"}, lvInvocation},
+	{".div", "post", []string{".", "div"}, lvInvocation},     // member steps spelled like keywords: rejected by the grammar
+	{".day", "post", []string{".", "day"}, lvInvocation},     // in every rendering and under every decoration alike
+	{".`div`", "post", []string{".", "`div`"}, lvInvocation}, // the delimited spelling is a member step
 	{".not()", "post", []string{".", "not", "(", ")"}, lvInvocation},
 	{"is", "post", []string{"is", "Integer"}, lvType},
 	{"as", "post", []string{"as", "System", ".", "String"}, lvType},
@@ -185,6 +188,76 @@ func c11Render(n *c11Node, full bool, leafNo *int) []string {
 
 // c11WrapLeaves makes the full rendering parenthesise the leaves (terms) as well.
 var c11WrapLeaves bool
+
+// nesting constructs for the deep-nesting sub-space: build(d, wrap) nests the construct d times; every
+// sub-expression is additionally wrapped in `wrap` redundant pairs of parentheses
+type c11Chain struct {
+	name  string
+	build func(d, wrap int) string
+}
+
+func c11Paren(s string, wrap int) string {
+	return strings.Repeat("(", wrap) + s + strings.Repeat(")", wrap)
+}
+
+var c11Chains = []c11Chain{
+	{"iif-in-criterion", func(d, w int) string {
+		s := c11Paren("true", w)
+		for k := 0; k < d; k++ {
+			s = c11Paren("iif("+s+", "+c11Paren("true", w)+", "+c11Paren("false", w)+")", w)
+		}
+		return s
+	}},
+	{"where-in-where", func(d, w int) string {
+		s := c11Paren("true", w)
+		for k := 0; k < d; k++ {
+			s = c11Paren("$this.where("+s+").exists()", w)
+		}
+		return "Patient.name.where(" + s + ").count()"
+	}},
+	{"select-in-select", func(d, w int) string {
+		s := c11Paren("$this", w)
+		for k := 0; k < d; k++ {
+			s = c11Paren("$this.select("+s+")", w)
+		}
+		return "Patient.name.given.select(" + s + ").count()"
+	}},
+	{"right-nested-plus", func(d, w int) string {
+		s := c11Paren("1", w)
+		for k := 0; k < d; k++ {
+			s = c11Paren("1 + "+c11Paren(s, 1), w)
+		}
+		return s
+	}},
+	{"left-nested-and", func(d, w int) string {
+		s := c11Paren("true", w)
+		for k := 0; k < d; k++ {
+			s = c11Paren(c11Paren(s, 1)+" and true", w)
+		}
+		return s
+	}},
+	{"polarity", func(d, w int) string {
+		s := c11Paren("1", w)
+		for k := 0; k < d; k++ {
+			s = c11Paren("-"+c11Paren(s, 1), w)
+		}
+		return s
+	}},
+	{"indexer-in-indexer", func(d, w int) string {
+		s := c11Paren("0", w)
+		for k := 0; k < d; k++ {
+			s = c11Paren("Patient.name["+s+"].given.count() - 2", w)
+		}
+		return "Patient.name[" + s + "].family"
+	}},
+	{"function-chain", func(d, w int) string {
+		s := c11Paren("Patient.name", w)
+		for k := 0; k < d; k++ {
+			s = c11Paren(s+".first()", w)
+		}
+		return s + ".family"
+	}},
+}
 
 func c11LeafTokens(l string) []string {
 	switch l {
@@ -346,7 +419,7 @@ func init() {
 	decorations := []struct{ name, s string }{{"space", " "}, {"newline", "\n"}, {"tab", "\t"}, {"block-comment", "/* c */"}, {"line-comment", "// c\n"}, {"nothing", ""}}
 	core.Register(&core.Check{
 		ID:          "C11",
-		Rule:        "all expression trees with <=3 operator nodes over 22 binary operator tokens (all 13 precedence levels), polarity, invocation, indexer, is/as, function-argument and parenthesised positions (quick; thorough adds all trees with 4 operator nodes over one representative per level); leaves rotate through 14 leaf terms (incl. the out-of-range number 2147483648), trees with <=2 nodes with every rotation; each tree is rendered minimally parenthesised (harness's own precedence table), fully parenthesised, and fully parenthesised including the leaf terms: both compile or both fail, identical AST dumps, identical evaluation on 2 inputs; all trees with <=2 nodes x 6 token-gap decorations applied to all gaps and to each single gap; x 52 trailing tokens; Expression.String(); an operand-order table evaluated against hand-written results; non-trivial = distinct (tree, rendering, outcome)",
+		Rule:        "all expression trees with <=3 operator nodes over 22 binary operator tokens (all 13 precedence levels), polarity, invocation, indexer, is/as, function-argument and parenthesised positions (quick; thorough adds all trees with 4 operator nodes over one representative per level); leaves rotate through 14 leaf terms (incl. the out-of-range number 2147483648), trees with <=2 nodes with every rotation; each tree is rendered minimally parenthesised (harness's own precedence table), fully parenthesised, and fully parenthesised including the leaf terms: both compile or both fail, identical AST dumps, identical evaluation on 2 inputs; all trees with <=2 nodes x 6 token-gap decorations applied to all gaps and to each single gap; x 52 trailing tokens; Expression.String(); deep nesting (8 constructs x depth 1..12 / 1..30 with 0, 1, 2, 4 redundant pairs of parentheses around every sub-expression: same acceptance and evaluation); an operand-order table evaluated against hand-written results; non-trivial = distinct (tree, rendering, outcome)",
 		Assumptions: []string{"the precedence table (13 levels, left associative) in checks/c11.go was transcribed from the FHIRPath N1 grammar", "AST equality is judged on the reflective dump of the private expression tree including implementation function names"},
 		Subs: func(tier string) []core.Sub {
 			tr := c11Build(tier)
@@ -426,61 +499,102 @@ func init() {
 						one(off)
 					}
 				}},
-				{Name: "decorations", N: len(tr.small), Note: "trees with <=2 operator nodes x 6 decorations x (all gaps | each single gap)", Run: func(i int, r *core.Rec) {
+				{Name: "decorations", N: len(tr.small), Note: "trees with <=2 operator nodes x 3 leaf assignments x 6 decorations x (all gaps | each single gap)", Run: func(i int, r *core.Rec) {
 					t := tr.small[i]
-					a := 0
-					toks := c11Render(t, false, &a)
-					base := c11Compile(r, c11Join(toks, func(int) string { return " " }), false)
-					if base.pan != nil {
-						return // reported by the renderings sub-space
-					}
-					for _, d := range decorations {
-						gapText := func(g int) string {
-							if d.s == "" && !c11Separable(toks[g-1], toks[g]) {
-								return " "
+					// three leaf assignments: starting at the literal 1, at the element name, at the resource type name
+					for _, off := range []int{0, 4, 6} {
+						off := off
+						func() {
+							a := off
+							toks := c11Render(t, false, &a)
+							base := c11Compile(r, c11Join(toks, func(int) string { return " " }), false)
+							if base.pan != nil {
+								return // reported by the renderings sub-space
 							}
-							if strings.HasPrefix(d.s, "/") && strings.HasSuffix(toks[g-1], "/") {
-								return " " + d.s // '/' followed by a comment opener would itself read as '//'
-							}
-							return d.s
-						}
-						variants := []func(int) string{gapText} // all gaps
-						for g := 1; g < len(toks); g++ {
-							g := g
-							variants = append(variants, func(j int) string {
-								if j == g {
-									return gapText(j)
+							for _, d := range decorations {
+								gapText := func(g int) string {
+									if d.s == "" && !c11Separable(toks[g-1], toks[g]) {
+										return " "
+									}
+									if strings.HasPrefix(d.s, "/") && strings.HasSuffix(toks[g-1], "/") {
+										return " " + d.s // '/' followed by a comment opener would itself read as '//'
+									}
+									return d.s
 								}
-								return " "
-							})
-						}
-						for vi, v := range variants {
-							src := c11Join(toks, v)
-							o := c11Compile(r, src, false)
-							mode := "single-gap"
-							if vi == 0 {
-								mode = "all-gaps"
+								variants := []func(int) string{gapText} // all gaps
+								for g := 1; g < len(toks); g++ {
+									g := g
+									variants = append(variants, func(j int) string {
+										if j == g {
+											return gapText(j)
+										}
+										return " "
+									})
+								}
+								for vi, v := range variants {
+									src := c11Join(toks, v)
+									o := c11Compile(r, src, false)
+									mode := "single-gap"
+									if vi == 0 {
+										mode = "all-gaps"
+									}
+									r.State("decoration|" + d.name + "|" + mode)
+									r.Outcome(fmt.Sprintf("%s|%v", d.name, o.ok))
+									r.Nontrivial(src, fmt.Sprint(o.ok))
+									if r.WantSample() {
+										r.Sample(core.W{"source": src, "decoration": d.name, "compiles": o.ok})
+									}
+									w := core.W{"tree": c11Shape(t), "source": src, "decoration": d.name, "mode": mode, "plain_outcome": base.desc, "decorated_outcome": o.desc}
+									if o.pan != nil {
+										r.Fail("decoration|"+d.name+"|"+o.pan.Key(), w)
+										continue
+									}
+									if o.ok != base.ok {
+										r.Fail(fmt.Sprintf("decoration|%s|%s|changes-acceptance|plain=%v", d.name, mode, base.ok), w)
+										continue
+									}
+									if o.ok && o.ast != base.ast {
+										r.Fail(fmt.Sprintf("decoration|%s|%s|ast-differs", d.name, mode), w)
+									}
+									if o.ok && o.str != src {
+										r.Fail("string()-is-not-the-source", core.W{"source": src, "String()": o.str})
+									}
+								}
 							}
-							r.State("decoration|" + d.name + "|" + mode)
-							r.Outcome(fmt.Sprintf("%s|%v", d.name, o.ok))
-							r.Nontrivial(src, fmt.Sprint(o.ok))
-							if r.WantSample() {
-								r.Sample(core.W{"source": src, "decoration": d.name, "compiles": o.ok})
-							}
-							w := core.W{"tree": c11Shape(t), "source": src, "decoration": d.name, "mode": mode, "plain_outcome": base.desc, "decorated_outcome": o.desc}
+						}()
+					}
+				}},
+				{Name: "deep-nesting", N: len(c11Chains), Note: "8 nesting constructs x depth 1..12 (quick) / 1..30 (thorough) x {minimal, every sub-expression wrapped in 1, 2 or 4 redundant pairs of parentheses}: same acceptance, same evaluation", Run: func(i int, r *core.Rec) {
+					ch := c11Chains[i]
+					maxD := 12
+					if tier == "thorough" {
+						maxD = 30
+					}
+					for d := 1; d <= maxD; d++ {
+						var base c11Out
+						var baseSrc string
+						for _, wrap := range []int{0, 1, 2, 4} {
+							src := ch.build(d, wrap)
+							o := c11Compile(r, src, true)
+							r.State(fmt.Sprintf("deep|%s|wrap=%d", ch.name, wrap))
+							r.Nontrivial(ch.name, fmt.Sprint(d), fmt.Sprint(wrap), fmt.Sprint(o.ok))
+							w := core.W{"construct": ch.name, "depth": d, "redundant_parentheses": wrap, "source": core.Short(src, 400), "outcome": core.Short(o.desc, 200)}
 							if o.pan != nil {
-								r.Fail("decoration|"+d.name+"|"+o.pan.Key(), w)
+								r.Fail("deep-nesting|"+ch.name+"|"+o.pan.Key(), w)
+								break
+							}
+							if wrap == 0 {
+								base, baseSrc = o, src
 								continue
 							}
+							w["minimal_source"], w["minimal_outcome"] = core.Short(baseSrc, 400), core.Short(base.desc, 200)
 							if o.ok != base.ok {
-								r.Fail(fmt.Sprintf("decoration|%s|%s|changes-acceptance|plain=%v", d.name, mode, base.ok), w)
-								continue
+								r.Fail(fmt.Sprintf("deep-nesting|%s|only-one-rendering-compiles|minimal=%v", ch.name, base.ok), w)
+								break
 							}
-							if o.ok && o.ast != base.ast {
-								r.Fail(fmt.Sprintf("decoration|%s|%s|ast-differs", d.name, mode), w)
-							}
-							if o.ok && o.str != src {
-								r.Fail("string()-is-not-the-source", core.W{"source": src, "String()": o.str})
+							if o.ok && strings.Join(o.evs, "\x00") != strings.Join(base.evs, "\x00") {
+								r.Fail("deep-nesting|"+ch.name+"|evaluation-differs", w)
+								break
 							}
 						}
 					}
